@@ -117,6 +117,8 @@ type XGOpts struct {
 	// NoInline: callees kept opaque (treated as a single event node).
 	NoInline func(fn *ssa.Function) bool
 	MaxNodes int
+	// InlineGo: the body of a goroutine started with a static callee / literal is expanded at the go statement.
+	InlineGo bool
 }
 
 // higher-order stdlib functions whose function argument is invoked synchronously 0..n times
@@ -265,6 +267,14 @@ func (g *XG) instantiate(ctx *Ctx) (entry *Node, rets []*Node) {
 					}
 				}
 			case *ssa.Go:
+				if g.opts.InlineGo {
+					// the goroutine's body is analysed as if it ran at the go statement (used by rules that ask
+					// what a function does "by itself or in goroutines it starts", never for ordering claims)
+					h, t := g.call(ctx, in, in.Common(), false)
+					h.IsGo = true
+					alive = add(h, t)
+					continue
+				}
 				n := g.newNode(KInstr, ctx, in)
 				n.IsGo = true
 				n.Call = in.Common()
